@@ -68,6 +68,17 @@ func checkSkipMemoKeyCoversInputs(c *core.Ctx, r *core.Rule, prog *core.Prog, ex
 						if in.diagnosticOnly || in.funcValue || in.scratch {
 							continue
 						}
+						// a local of the enclosing function computed before the closure was made: what it was computed from
+						root, _, _ := strings.Cut(in.path, ".")
+						if roots := derivedLocalRoots(fn, root); roots != nil {
+							for _, rp := range sortedKeysOf(roots) {
+								if rp == "?" || coveredByKey(rp, keyAtoms) || strings.HasPrefix(rp+".", site.ownerRoot+".") || llRootName(fn, rp) {
+									continue
+								}
+								missing = append(missing, rp+" (through "+root+")")
+							}
+							continue
+						}
 						missing = append(missing, in.path)
 					}
 					sort.Strings(missing)
@@ -417,6 +428,13 @@ func keyAtomsOf(v ssa.Value, d int) []string {
 				if st, ok := ref.(*ssa.Store); ok && st.Addr == ssa.Value(al) {
 					out = append(out, keyAtomsOf(st.Val, d+1)...)
 				}
+				if ia, ok := ref.(*ssa.IndexAddr); ok {
+					for _, u := range *ia.Referrers() {
+						if st, ok := u.(*ssa.Store); ok && st.Addr == ssa.Value(ia) {
+							out = append(out, keyAtomsOf(st.Val, d+1)...)
+						}
+					}
+				}
 			}
 		}
 	case *ssa.BinOp:
@@ -477,6 +495,7 @@ func regionInputs(fn *ssa.Function, site skipMemo) []memoInput {
 			mi.diagnosticOnly = false
 		}
 	}
+	visitedFn := map[*ssa.Function]bool{fn: true}
 	var scanFunc func(f *ssa.Function, blocks func(*ssa.BasicBlock) bool, depth int, rename func(string) string)
 	scanFunc = func(f *ssa.Function, blocks func(*ssa.BasicBlock) bool, depth int, rename func(string) string) {
 		scope := func(in ssa.Instruction) bool { return in.Parent() == f && blocks(in.Block()) }
@@ -488,18 +507,13 @@ func regionInputs(fn *ssa.Function, site skipMemo) []memoInput {
 				if in == ssa.Instruction(site.lookup) {
 					continue
 				}
-				// path-extending instructions are not reads by themselves
-				switch in.(type) {
+				// path-extending instructions (field selection, loads of cells and fields of outside roots) are not
+				// reads by themselves: what is done with the value they produce is
+				switch x := in.(type) {
 				case *ssa.FieldAddr, *ssa.Field:
 					continue
-				}
-				if u, ok := in.(*ssa.UnOp); ok && u.Op == token.MUL {
-					if _, isFA := u.X.(*ssa.FieldAddr); isFA {
-						// a load of a field: a read of that path if the loaded value is used by anything but further paths
-						p := accessPathOf(u, 0)
-						if p != "" && usedBeyondPaths(u) {
-							add(rename(p), u, in, scope)
-						}
+				case *ssa.UnOp:
+					if x.Op == token.MUL && accessPathOf(x, 0) != "" {
 						continue
 					}
 				}
@@ -512,20 +526,13 @@ func regionInputs(fn *ssa.Function, site skipMemo) []memoInput {
 					case *ssa.Const, *ssa.Function, *ssa.Builtin:
 						continue
 					}
-					// defined inside the region: not an input
-					if vi, ok := v.(ssa.Instruction); ok && vi.Parent() == f && blocks(vi.Block()) {
-						if _, isLoad := v.(*ssa.UnOp); !isLoad {
-							continue
-						}
-						continue
-					}
 					p := accessPathOf(v, 0)
 					if p == "" {
 						continue
 					}
 					// whole value handed to an in-module callee: one level of field sensitivity
 					if call, ok := in.(ssa.CallInstruction); ok && depth < 2 {
-						if callee := call.Common().StaticCallee(); callee != nil && core.InModule(callee) && len(callee.Blocks) > 0 {
+						if callee := call.Common().StaticCallee(); callee != nil && core.InModule(callee) && len(callee.Blocks) > 0 && !onlyErrorResults(callee.Signature) {
 							idx := -1
 							for i, a := range call.Common().Args {
 								if a == v {
@@ -553,6 +560,39 @@ func regionInputs(fn *ssa.Function, site skipMemo) []memoInput {
 					}
 					add(rename(p), v, in, scope)
 				}
+				// a call through a local function variable (`check`, `allowed`): the closures assigned to a variable
+				// of that name anywhere in the enclosing top-level function; their free variables are the same
+				// variables, so the names carry over
+				if call, ok := in.(ssa.CallInstruction); ok && depth < 3 {
+					if ld, ok := call.Common().Value.(*ssa.UnOp); ok && ld.Op == token.MUL && !call.Common().IsInvoke() {
+						name := ""
+						switch cell := ld.X.(type) {
+						case *ssa.FreeVar:
+							name = cell.Name()
+						case *ssa.Alloc:
+							name = cell.Comment
+						}
+						if name != "" {
+							for _, cf := range closuresNamed(f, name) {
+								if visitedFn[cf] {
+									continue
+								}
+								visitedFn[cf] = true
+								own := map[string]bool{}
+								for _, pa := range cf.Params {
+									own[pa.Name()] = true
+								}
+								scanFunc(cf, func(*ssa.BasicBlock) bool { return true }, depth+1, func(s string) string {
+									root, _, _ := strings.Cut(s, ".")
+									if own[root] {
+										return ""
+									}
+									return rename(s)
+								})
+							}
+						}
+					}
+				}
 				// closures made in the region read their free variables
 				if mc, ok := in.(*ssa.MakeClosure); ok && depth < 2 {
 					cf := mc.Fn.(*ssa.Function)
@@ -575,6 +615,30 @@ func regionInputs(fn *ssa.Function, site skipMemo) []memoInput {
 		}
 	}
 	scanFunc(fn, inRegion, 0, func(s string) string { return s })
+	// per-document singletons by root name (paths that came back from callees carry the caller's root)
+	llRoots := map[string]bool{}
+	for f := fn; f != nil; f = f.Parent() {
+		for _, pa := range f.Params {
+			if longLivedOwner(pa.Type()) {
+				llRoots[pa.Name()] = true
+			}
+		}
+		for _, fv := range f.FreeVars {
+			t := fv.Type()
+			if pt, ok := t.Underlying().(*types.Pointer); ok && longLivedOwner(pt.Elem()) {
+				llRoots[fv.Name()] = true
+			}
+			if longLivedOwner(t) {
+				llRoots[fv.Name()] = true
+			}
+		}
+	}
+	for pth, mi := range got {
+		root, _, _ := strings.Cut(pth, ".")
+		if llRoots[root] {
+			mi.scratch = true
+		}
+	}
 	// scratch containers: free variables bound to a map / slice the enclosing function makes
 	for p, mi := range got {
 		root, _, _ := strings.Cut(p, ".")
@@ -629,6 +693,217 @@ func rootIsLongLived(v ssa.Value) bool {
 			v = x.X
 		default:
 			return false
+		}
+	}
+	return false
+}
+
+// closuresNamed: the function literals stored into a local variable called name anywhere under f's top-level function.
+func closuresNamed(f *ssa.Function, name string) []*ssa.Function {
+	top := f
+	for top.Parent() != nil {
+		top = top.Parent()
+	}
+	var out []*ssa.Function
+	for _, g := range core.AllFuncs(top) {
+		for _, b := range g.Blocks {
+			for _, in := range b.Instrs {
+				st, ok := in.(*ssa.Store)
+				if !ok {
+					continue
+				}
+				mc, ok := st.Val.(*ssa.MakeClosure)
+				if !ok {
+					continue
+				}
+				switch cell := st.Addr.(type) {
+				case *ssa.Alloc:
+					if cell.Comment == name {
+						out = append(out, mc.Fn.(*ssa.Function))
+					}
+				case *ssa.FreeVar:
+					if cell.Name() == name {
+						out = append(out, mc.Fn.(*ssa.Function))
+					}
+				}
+			}
+		}
+	}
+	return out
+}
+
+// onlyErrorResults: a function whose every result is an error builds a diagnostic; what it reads shapes the message.
+func onlyErrorResults(sig *types.Signature) bool {
+	if sig.Results().Len() == 0 {
+		return false
+	}
+	for i := 0; i < sig.Results().Len(); i++ {
+		if !core.IsErrorType(sig.Results().At(i).Type()) {
+			return false
+		}
+	}
+	return true
+}
+
+// sliceRoots: the access paths a value is computed from (backward data dependences through calls, lookups, arithmetic,
+// struct literals), for values derived outside the skipped region. "?" marks a dependence that cannot be named.
+func sliceRoots(v ssa.Value, d int, seen map[ssa.Value]bool, out map[string]bool) {
+	if v == nil || seen[v] {
+		return
+	}
+	seen[v] = true
+	if d > 10 {
+		out["?"] = true
+		return
+	}
+	if p := accessPathOf(v, 0); p != "" {
+		if al, isAlloc := rootAlloc(v); !isAlloc || spilledRoot(al) {
+			out[p] = true
+			return
+		}
+	}
+	switch x := v.(type) {
+	case *ssa.Const, *ssa.Function, *ssa.Builtin, *ssa.MakeMap, *ssa.MakeSlice, *ssa.MakeChan:
+		return
+	case *ssa.Alloc:
+		for _, ref := range *x.Referrers() {
+			switch y := ref.(type) {
+			case *ssa.Store:
+				if y.Addr == ssa.Value(x) {
+					sliceRoots(y.Val, d+1, seen, out)
+				}
+			case *ssa.FieldAddr:
+				for _, u := range *y.Referrers() {
+					if st, ok := u.(*ssa.Store); ok && st.Addr == ssa.Value(y) {
+						sliceRoots(st.Val, d+1, seen, out)
+					}
+				}
+			case *ssa.IndexAddr:
+				for _, u := range *y.Referrers() {
+					if st, ok := u.(*ssa.Store); ok && st.Addr == ssa.Value(y) {
+						sliceRoots(st.Val, d+1, seen, out)
+					}
+				}
+			}
+		}
+		return
+	case *ssa.Call:
+		for _, a := range x.Common().Args {
+			sliceRoots(a, d+1, seen, out)
+		}
+		if x.Common().IsInvoke() {
+			sliceRoots(x.Common().Value, d+1, seen, out)
+		}
+		return
+	}
+	if in, ok := v.(ssa.Instruction); ok {
+		for _, op := range in.Operands(nil) {
+			if *op != nil {
+				sliceRoots(*op, d+1, seen, out)
+			}
+		}
+		return
+	}
+	out["?"] = true
+}
+
+// spilledRoot: the cell holds a parameter or a captured variable and nothing else.
+func spilledRoot(al *ssa.Alloc) bool {
+	n := 0
+	for _, ref := range *al.Referrers() {
+		if st, ok := ref.(*ssa.Store); ok && st.Addr == ssa.Value(al) {
+			switch st.Val.(type) {
+			case *ssa.Parameter, *ssa.FreeVar:
+				n++
+			default:
+				return false
+			}
+		}
+	}
+	return n == 1
+}
+
+func rootAlloc(v ssa.Value) (*ssa.Alloc, bool) {
+	for d := 0; d < 10; d++ {
+		switch x := v.(type) {
+		case *ssa.Alloc:
+			return x, true
+		case *ssa.UnOp:
+			v = x.X
+		case *ssa.FieldAddr:
+			v = x.X
+		case *ssa.Field:
+			v = x.X
+		default:
+			return nil, false
+		}
+	}
+	return nil, false
+}
+
+// derivedLocalRoots: a free variable of fn that is a local of the enclosing function computed from other values: the
+// paths it was computed from. nil if the variable is not such a local.
+func derivedLocalRoots(fn *ssa.Function, name string) map[string]bool {
+	par := fn.Parent()
+	if par == nil {
+		return nil
+	}
+	for _, b := range par.Blocks {
+		for _, in := range b.Instrs {
+			mc, ok := in.(*ssa.MakeClosure)
+			if !ok {
+				continue
+			}
+			cf := mc.Fn.(*ssa.Function)
+			for i, fv := range cf.FreeVars {
+				if fv.Name() != name {
+					continue
+				}
+				al, ok := mc.Bindings[i].(*ssa.Alloc)
+				if !ok {
+					continue
+				}
+				out := map[string]bool{}
+				n := 0
+				for _, ref := range *al.Referrers() {
+					if st, ok := ref.(*ssa.Store); ok && st.Addr == ssa.Value(al) {
+						if _, isParam := st.Val.(*ssa.Parameter); isParam {
+							return nil // a spilled parameter is a root itself
+						}
+						n++
+						sliceRoots(st.Val, 0, map[ssa.Value]bool{}, out)
+					}
+				}
+				if n == 0 {
+					return nil
+				}
+				return out
+			}
+		}
+	}
+	return nil
+}
+
+// llRootName: path starts at a per-document singleton visible from fn.
+func llRootName(fn *ssa.Function, path string) bool {
+	root, _, _ := strings.Cut(path, ".")
+	for f := fn; f != nil; f = f.Parent() {
+		for _, pa := range f.Params {
+			if pa.Name() == root && longLivedOwner(pa.Type()) {
+				return true
+			}
+		}
+		for _, fv := range f.FreeVars {
+			if fv.Name() != root {
+				continue
+			}
+			t := fv.Type()
+			if pt, ok := t.Underlying().(*types.Pointer); ok && longLivedOwner(pt.Elem()) {
+				return true
+			}
+			if longLivedOwner(t) {
+				return true
+			}
 		}
 	}
 	return false
